@@ -4,6 +4,9 @@
 package curves
 
 import (
+	"os"
+	"strings"
+
 	"github.com/consensys/gnark-crypto/ecc"
 
 	bls12377 "github.com/consensys/gnark/verifharness/curves/bls12-377"
@@ -30,6 +33,21 @@ func Get(id ecc.ID) *cvapi.Ops {
 
 // Tier returns the curves for a tier: quick = bn254, bls12-377, bw6-761.
 func Tier(quick bool) []*cvapi.Ops {
+	// VERIF_CURVES (comma separated) restricts the curves: used when validating the checks
+	// against a seeded change that lives in one curve's generated copy only
+	if env := os.Getenv("VERIF_CURVES"); env != "" {
+		var out []*cvapi.Ops
+		for _, n := range strings.Split(env, ",") {
+			for _, o := range All {
+				if o.Name == n {
+					out = append(out, o)
+				}
+			}
+		}
+		if len(out) > 0 {
+			return out
+		}
+	}
 	if quick {
 		return []*cvapi.Ops{bn254.Ops, bls12377.Ops, bw6761.Ops}
 	}
